@@ -37,6 +37,7 @@ CONSTANTS
     WriteOps,     \* subset of {"set","apply","applyslice","copyfrom","twoarray"}
     AllowNil,     \* BOOLEAN: also generate the step = nil variant of unit-step slices
     ChainOnly,    \* BOOLEAN: Slice/Reshape only the newest view (chains instead of trees of views)
+    WriteNewest,  \* BOOLEAN: writes go through the newest view only (else through any live view)
     EarlyStop,    \* BOOLEAN: Finish may be taken before the bounds are exhausted (simulation)
     Emit          \* BOOLEAN: Finish prints the behaviour as JSON
 
@@ -113,6 +114,7 @@ NewArray ==
     /\ UNCHANGED <<fresh, nS, nW, nR, done>>
 
 ViewChoice == IF ChainOnly THEN {Len(views)} ELSE DOMAIN views
+WriteChoice == IF WriteNewest THEN {Len(views)} ELSE DOMAIN views
 
 Slice ==
     /\ stores # <<>> /\ ~done /\ nS < MaxSlices
@@ -170,14 +172,14 @@ DoWrite(vi, ws, rec) ==
 \* Set (and Set1/Set2/Set3 according to rank): one element
 WSet ==
     /\ "set" \in WriteOps
-    /\ \E vi \in DOMAIN views : \E k \in 1..Len(views[vi].offs) :
+    /\ \E vi \in WriteChoice : \E k \in 1..Len(views[vi].offs) :
         DoWrite(vi, << <<views[vi].offs[k], fresh>> >>,
                 [op |-> "set", idx |-> Unrank(k - 1, views[vi].shape), val |-> fresh])
 
 \* Apply(loc, dim, step, vals) (and Apply1 for rank 1): a 1-D run along dimension dim
 WApply ==
     /\ "apply" \in WriteOps
-    /\ \E vi \in DOMAIN views :
+    /\ \E vi \in WriteChoice :
        LET v == views[vi] IN
        \E dim \in 1..Len(v.shape) :
        \E k \in 1..Len(v.offs) : \E n \in 1..v.shape[dim] : \E s \in StepVals :
@@ -201,7 +203,7 @@ SrcVals(n) == FreshVals(n)
 \* destination selections of ApplySlice: like Slice
 WApplySlice ==
     /\ "applyslice" \in WriteOps
-    /\ \E vi \in DOMAIN views :
+    /\ \E vi \in WriteChoice :
        LET v == views[vi] IN
        \E sel \in SeqProd([d \in 1..Len(v.shape) |-> DimSel(v.shape[d])]) :
        \E nil \in (IF AllowNil /\ (\A d \in 1..Len(sel) : sel[d][3] = 1) THEN BOOLEAN ELSE {FALSE}) :
@@ -221,7 +223,7 @@ OrderInsensitive(dst, src) ==
 
 WCopyFrom ==
     /\ "copyfrom" \in WriteOps
-    /\ \E vi \in DOMAIN views :
+    /\ \E vi \in WriteChoice :
        LET v == views[vi] IN
        \/ \E kind \in SrcKinds :
             LET vals == SrcVals(Len(v.offs))
@@ -238,7 +240,7 @@ WCopyFrom ==
 TwoArrayFn(f, dv, sv) == CASE f = "scale" -> sv * 2 [] f = "addto" -> dv + sv [] f = "func" -> sv + 1
 WTwoArray ==
     /\ "twoarray" \in WriteOps
-    /\ \E vi \in DOMAIN views : \E f \in {"scale", "addto", "func"} :
+    /\ \E vi \in WriteChoice : \E f \in {"scale", "addto", "func"} :
        LET v == views[vi] IN
        \/ \E kind \in SrcKinds :
             LET sv == SrcVals(Len(v.offs))
